@@ -12,9 +12,9 @@ import (
 
 // c20Slice: see the cc target (per-part share of the process deadline; safety net only).
 func c20Slice(e explore.Env) explore.Env {
-	s := 40 * time.Second
+	s := 45 * time.Second
 	if e.Thorough() {
-		s = 170 * time.Second
+		s = 240 * time.Second
 	}
 	if d := time.Now().Add(s); e.Deadline.IsZero() || d.Before(e.Deadline) {
 		e.Deadline = d
@@ -67,6 +67,7 @@ func c20SphCfgOf(reno bool, initPkts int, dq, dt int) func(bool) *c20SphCfg {
 func TestVerifC20Sph(t *testing.T) {
 	explore.Main("C20", []explore.Part{
 		c20SphPart("gate-reno", c20SphCfgOf(true, 4, 7, 8)),
+		c20SphPart("gate-reno3", c20SphCfgOf(true, 3, 6, 7)),
 		c20SphPart("gate-cubic", c20SphCfgOf(false, 4, 6, 7)),
 		c20SphPart("gate-production", c20SphCfgOf(true, 0, 6, 7)),
 	}, func(msg string) { t.Fatal(msg) })
